@@ -18,6 +18,32 @@ class AnchorMissing(Exception):
     pass
 
 
+class _WrappedConstruction:
+    """a call of a constructor wrapper, presented like the assignment `dest = Adt::Variant{..}` it stands for (rule code reads .bb .line .place .rv.j)"""
+    k = 'assign'
+
+    def __init__(self, term, agg_stmt, idx):
+        self.term = term
+        self.place = term.dest
+        self.rv = agg_stmt.rv
+        self.variant = None
+        self.span = term.span
+        self.bb = term.bb
+        self.idx = idx
+        self.wrapped = True
+
+    @property
+    def line(self):
+        return self.span['line']
+
+    @property
+    def macros(self):
+        return self.span['mac']
+
+    def __repr__(self):
+        return '%r = %r (through a constructor wrapper)' % (self.place, self.rv)
+
+
 class World:
     def __init__(self, facts, extra_facts=()):
         self.fx = facts
@@ -234,17 +260,52 @@ class World:
                 through.append(w)
         return exact, through
 
+    def constructor_wrappers(self):
+        """{fn: (adt, variant)} -- crate functions that do nothing but build one variant of an ADT and return it (`fn invalid_request(info) -> GgrsError`):
+        straight-line (no branch outside cleanup), exactly one aggregate of an ADT of this crate, and the return type names that ADT.  A call of such a
+        wrapper is a construction site of the variant in the CALLER (Min et al.: treat a wrapper as the thing it wraps)."""
+        c = getattr(self, '_ctor_wrappers', None)
+        if c is not None:
+            return c
+        c = {}
+        for f in self.fns():
+            if f.derived or f.kind == 'closure' or f.path.split('::')[-1] in ('new', 'default', 'from'):
+                continue
+            if any(b.term.k == 'switch' for b in f.blocks if not b.cleanup):
+                continue
+            if any((f.local_ty(i) or '').startswith('&mut') for i in range(1, f.argc + 1)):
+                continue     # it can change state: a function of its own (save_current_state), not a spelling of the literal
+            aggs = [s for s in f.stmts() if s.k == 'assign' and s.rv.k == 'agg' and s.rv.j.get('ak') == 'adt' and strip_generics(s.rv.j['adt']).startswith('ggrs::')]
+            if len(aggs) != 1:
+                continue
+            adt = strip_generics(aggs[0].rv.j['adt'])
+            ret_ty = f.local_ty(0) or ''
+            if adt.split('::')[-1] not in ret_ty or not any(k in adt for k in ('GgrsError', 'GgrsEvent', 'Event', 'GgrsRequest')):
+                continue
+            c[f] = (adt, aggs[0].rv.j['variant'], aggs[0])
+        self._ctor_wrappers = c
+        return c
+
     def constructions(self, adt_suffix, variant=None):
-        """Aggregate constructions of an ADT (variant)"""
+        """Aggregate constructions of an ADT (variant); calls of a constructor wrapper count as constructions in the caller"""
+        wr = self.constructor_wrappers()
         r = []
         for f in self.fns():
             if f.derived:
                 continue   # #[derive(Clone, ...)] re-builds variants; not a producer of new values
-            for s in f.stmts():
-                if s.k == 'assign' and s.rv.k == 'agg' and s.rv.j.get('ak') == 'adt':
-                    p = strip_generics(s.rv.j['adt'])
-                    if match_path(p, adt_suffix) and (variant is None or s.rv.j['variant'] == variant):
-                        r.append((f, s))
+            if f not in wr:
+                for s in f.stmts():
+                    if s.k == 'assign' and s.rv.k == 'agg' and s.rv.j.get('ak') == 'adt':
+                        p = strip_generics(s.rv.j['adt'])
+                        if match_path(p, adt_suffix) and (variant is None or s.rv.j['variant'] == variant):
+                            r.append((f, s))
+            for b in f.blocks:
+                t = b.term
+                if b.cleanup or t.k != 'call':
+                    continue
+                for g in self.cg.targets(t.callee):
+                    if g in wr and match_path(wr[g][0], adt_suffix) and (variant is None or wr[g][1] == variant):
+                        r.append((f, _WrappedConstruction(t, wr[g][2], len(b.stmts))))
         return r
 
     def calls_to(self, pattern, within=None):
